@@ -189,7 +189,19 @@ def r4(ctx, mod, env):
     ok = gp is not None and bp == gp - SymPoly.atom("BEACON_CONFIG_PATCH_SIZE") and _xpoly(f, s1.args[0]) == bp
     ctx.ob("R4", "AGREE", f, "beacon_config_offset", bool(ok), f"reported beacon config offset is {bp}; required guard offset - BEACON_CONFIG_PATCH_SIZE, and the file is read there")
     u = kwarg(ctor[0], "unmasked_guard_config") if ctor else None
-    uo = origin(f.node, u) if u is not None else None
+    from csverif.q import inline as _inl
+    uo = None
+    if u is not None:
+        uo = origin(f.node, u)
+        # inline temporaries but keep the three role variables as names
+        class _K(ast.NodeTransformer):
+            def visit_Name(self, node):
+                if node.id in (MG, MB, xk):
+                    return node
+                o = origin(f.node, node)
+                return self.visit(o) if o is not node and isinstance(o, ast.expr) and not isinstance(o, ast.Name) else node
+        import copy as _copy
+        uo = _K().visit(_copy.deepcopy(uo))
     ok = uo is not None and (pmatch("xor(xor($mg, $mb[::-1]), $k)", uo, {"mg": MG, "mb": MB, "k": xk}) is not None or pmatch("xor(xor($mg, $k), $mb[::-1])", uo, {"mg": MG, "mb": MB, "k": xk}) is not None)
     ctx.ob("R4", "AGREE", f, "unmasked_guard_config", bool(ok), f"guard config is unmasked with the REVERSED masked beacon config and the single-byte key: {src(uo)}")
     tests = [n for n in body_walk(f.node) if isinstance(n, ast.Compare) and isinstance(n.ops[0], ast.In) and dotted(n.comparators[0]) == XS]
